@@ -16,7 +16,7 @@ import (
 
 func init() {
 	opTimeout["c03two"] = 120 * time.Second
-	// c03two <kind: dns | tcp | udp>  <nreq> reqs..
+	// c03two <kind: dns | tcp | udp | ws | ws2>  <nreq> reqs..
 	//   TWO endpoints of the same kind in one server process (as the documentation's DNS example has), one channel table {x, y}, the first
 	//   endpoint allows only x, the second only y; every request is made on each endpoint through a real upstream of that kind
 	//  -> per endpoint: ep, then per request dial <tag> | refused
@@ -26,6 +26,7 @@ func init() {
 		dl := &dialLog{}
 		table := server.Channels{&recChannel{name: "x", tag: 0, log: dl}, &recChannel{name: "y", tag: 1, log: dl}}
 		var urls []string
+		var wsPorts []int
 		for i, allow := range [][]string{{"x"}, {"y"}} {
 			port := freePort()
 			var s server.Server
@@ -49,6 +50,18 @@ func init() {
 				d.Channels = allow
 				s = d
 				urls = append(urls, fmt.Sprintf("udp://127.0.0.1:%d", port))
+			case "ws", "ws2":
+				// two websocket servers: "ws" gives both the same path, "ws2" a path of its own each
+				d := server.NewHttpServer()
+				d.Address = addr.MustParseAddress(fmt.Sprintf("http://127.0.0.1:%d", port))
+				path := "/ws"
+				if kind == "ws2" {
+					path = fmt.Sprintf("/w%d", i)
+				}
+				d.Endpoints = append(d.Endpoints, server.HttpEndpoint{Endpoint: path, Channels: allow})
+				s = d
+				urls = append(urls, fmt.Sprintf("ws://127.0.0.1:%d%s", port, path))
+				wsPorts = append(wsPorts, port)
 			default:
 				panic("verifharness: unknown kind")
 			}
@@ -56,6 +69,13 @@ func init() {
 				return []Tok{TW("setup"), TW("err"), TIn(i)}
 			}
 			defer s.Shutdown()
+		}
+		if kind == "ws2" {
+			// ... and each server asked on the path that only the OTHER one has: nothing may be served there
+			urls = append(urls, fmt.Sprintf("ws://127.0.0.1:%d/w1", wsPorts[0]), fmt.Sprintf("ws://127.0.0.1:%d/w0", wsPorts[1]))
+		}
+		if kind == "ws" || kind == "ws2" {
+			time.Sleep(50 * time.Millisecond)
 		}
 		var out []Tok
 		for _, url := range urls {
